@@ -131,7 +131,7 @@ package mail
 //@ func mail.Client.checkConn
 //@   requires[C03,C04:session] client != nil ==> csess(client)
 //@   ensures[C03,C04:session] client != nil ==> csess(client) && txsame(client.Text)
-//@   ensures[C03,C04:nonnil] r0 == nil ==> client != nil
+//@   ensures[C03,C04,C13:nonnil] r0 == nil ==> client != nil
 //@ func mail.Client.ResetWithSMTPClient
 //@   requires[C03,C04:session] client != nil ==> csess(client)
 //@   ensures[C03,C04:session] client != nil ==> csess(client) && (!client.Text.ioerr ==> client.Text.eodacks == old(client.Text.eodacks) && (r0 == nil ==> client.Text.txn == 0) && (r0 != nil ==> client.Text.txn == old(client.Text.txn)))
@@ -156,3 +156,35 @@ package mail
 //@ func mail.Client.DialToSMTPClientWithContext
 //@   requires[C16:wf] c != nil
 //@ at mail.Client.DialToSMTPClientWithContext smtp.Client.SetLogAuthData#1 before assert[C16:opt-in] c.logAuthData
+
+// ---------------------------------------------------------------------------
+// C13  Lock discipline of mail.Client (sequential typestate; schedules are not decided)
+//
+// A batch sent over the shared connection runs inside one sendMutex critical section;
+// DialAndSend uses a connection of its own.
+//@ pred sendlocked(c *mail.Client) = subobj(c, "sendMutex").mheld
+//@ func mail.Client.Send
+//@   requires[C13:wf] c != nil && !sendlocked(c) && (c.smtpClient != nil ==> !mw(c.smtpClient))
+//@   ensures[C13:released] !sendlocked(c)
+//@ at mail.Client.Send mail.Client.SendWithSMTPClient#1 before assert[C13:batch-locked] sendlocked(c)
+//@ func mail.Client.DialToSMTPClientWithContext (ctxDial) (client, err)
+//@   requires[C13:wf] c != nil
+//@   ensures[C13:private] err == nil ==> fresh(client) && !mw(client)
+//@ func mail.Client.DialAndSendWithContext
+//@   requires[C13:wf] c != nil
+//@ at mail.Client.DialAndSendWithContext mail.Client.SendWithSMTPClient#1 before assert[C13:private-connection] fresh(client)
+//@ func mail.Client.sendSingleMsg
+//@   requires[C13:wf] c != nil && client != nil && !mw(client)
+//@   restores[C13:balanced] wheld, rheld
+//@ func mail.Client.checkConn
+//@   requires[C13:wf] c != nil && (client != nil ==> !mw(client))
+//@   restores[C13:balanced] wheld, rheld
+//@ func mail.Client.ResetWithSMTPClient
+//@   requires[C13:wf] c != nil && (client != nil ==> !mw(client))
+//@   restores[C13:balanced] wheld, rheld
+//@ func mail.Client.SendWithSMTPClient
+//@   requires[C13:wf] c != nil && (client != nil ==> !mw(client))
+//@   restores[C13:balanced] wheld, rheld
+//@ func mail.Client.CloseWithSMTPClient
+//@   requires[C13:wf] c != nil && (client != nil ==> !mw(client))
+//@   restores[C13:balanced] wheld, rheld
